@@ -106,6 +106,13 @@ func getRawFileDataFromRemote(reqURL string) (*whispertool.Header, PointsList, e
 	if err != nil {
 		return nil, nil, err
 	}
+	if err := checkRemoteStatus(resp, data); err != nil {
+		return nil, nil, err
+	}
+
+	if len(data) == 0 {
+		return nil, nil, convertRemoteErrNotExist(resp)
+	}
 
 	h := &whispertool.Header{}
 	if data, err = h.TakeFrom(data); err != nil {
